@@ -55,7 +55,7 @@ def run(R):
             if not good:
                 problems.append(("exit-before-sample", "between reading a line and sampling the flag the function can return (e.g. report a read error): "
                                                        "an interrupted query would still report an error for a line it must not consume"))
-        for c in PR.calls_matching(f, L.ENGINE_EXEC) + PR.calls_matching(f, L.PRINT):
+        for c in L.calls_reaching(f, L.ENGINE_EXEC) + L.calls_reaching(f, L.PRINT):
             if c.bb in lp.body and not PR.dominated_by_edge(f, c.bb, sw, t_t):
                 problems.append(("late-sample|" + short(c.name).split("::")[-1],
                                  "%s of a line is not dominated by the running==true edge: an interrupted query still executes/prints it"
